@@ -355,7 +355,10 @@ def fnNot (ev : Arg → M Val) : List Arg → M Val
 /-- `evalValue` of one element of a `cond` pair -/
 def evalValue (dev : Dev) (ev : Arg → M Val) (a : Arg) : M Val :=
   match a with
-  | .raw _ _ => if dev.condListNil then pure .null else ev a
+  | .raw v _ =>
+    if dev.condListNil then pure .null
+    else if dev.condListAlias then pure v      -- `result = tv`: the plan's list itself
+    else ev a
   | _ => ev a
 
 def fnCond (dev : Dev) (ev : Arg → M Val) : List Arg → M Val
